@@ -197,6 +197,25 @@ def check_layer(A, rep):
             rep.ok("C05.g", f"C05.g {func.qualname} force={force}: the entry's contents are merged into the object before the file is written")
         else:
             rep.fail("C05.g", norm_key("C05.g", func.qualname, f"force={force}"), f"{func.qualname} (force={force}) writes the object's own data without first merging the shared buffer entry's contents (writes made through another object on the same file are lost)", g.witness(w or []), g.label)
+    # (g') shared-memory strategy: the flush writes the buffered container, so the object must adopt it first
+    seen_m = {}
+    for cls in A.concrete():
+        if cls.is_subclass_of("SharedMemoryFileBufferedCollection"):
+            owner, v = A.model.lookup(cls, "_flush")
+            seen_m.setdefault(v.func, cls)
+    for func, cls in seen_m.items():
+        for force in (False, True):
+            b, g = A.graph(cls, "_flush", "root", "none", args=[Val("const", force)])
+            saves = [n.id for n in live(g) if is_enter(n, "_save_to_resource")]
+            adopt = [n.id for n in live(g) if n.kind == "data_mut" and n["op"] == "rebind" and n["owner"].args[1] == "root" and cattr_origin(n["value"]) is not None and cattr_origin(n["value"]).args[1] == "_buffer"]
+            adopt += [n.id for n in live(g) if is_leave(n, "_update") and recv_is_root_T(n) and len(n.stack) == 2]
+            w = g.must_pass(g.entry, saves, adopt)
+            if w is None and saves:
+                rep.ok("C05.g", f"C05.g {func.qualname} force={force}: the buffered contents are adopted before the file is written")
+            else:
+                rep.fail("C05.g", norm_key("C05.g", func.qualname, f"force={force}"),
+                         f"{func.qualname} (force={force}) writes the flushing object's own data without first adopting the container held in the shared buffer entry (another object on the same file may have replaced it): that object's writes are lost",
+                         g.witness(w or []), g.label)
     # (h) serialized strategy: an object that saves without having loaded (destructive operation, file not yet
     #     buffered) must record the hash of what is ON DISK as the entry's reference, on every path
     for func_cls in seen.values():
